@@ -323,6 +323,32 @@ func (s *State) EachMem(f func(addr, val *Term)) {
 	}
 }
 
+// knownValue: a returned value the path condition has already decided - a boolean that was branched on, a
+// reference that was compared with nil and found nil - is that constant (`has = f(x); if !has {..}; return has`).
+func (s *State) knownValue(t *Term, typ types.Type) *Term {
+	if t == nil || t.IsConst() || typ == nil {
+		return t
+	}
+	switch u := typ.Underlying().(type) {
+	case *types.Basic:
+		if u.Info()&types.IsBoolean != 0 {
+			atom, pol := Atom(t)
+			if v, ok := s.facts[atom.Key()]; ok {
+				return boolT(v == pol)
+			}
+		}
+	case *types.Pointer, *types.Interface, *types.Slice, *types.Map, *types.Chan, *types.Signature:
+		atom, pol := Atom(mkBin("==", t, Nil))
+		if atom.IsConst() {
+			return t
+		}
+		if v, ok := s.facts[atom.Key()]; ok && v == pol {
+			return &Term{Op: "const", Aux: "nil", Typ: typ}
+		}
+	}
+	return t
+}
+
 // Fact returns the recorded truth of a branch atom in this state.
 func (s *State) Fact(atom *Term) (val, known bool) {
 	if s == nil {
@@ -1225,6 +1251,20 @@ func (ex *explorer) run(st *State, blk *ssa.BasicBlock, idx int, prev *ssa.Basic
 				// boolean. The test is decided on the arriving path, where the value is still a term of this path: a
 				// constant that leaves the loop is followed out; a symbolic value is split into its two cases, the
 				// case that stays arrives with the flag known.
+				// the same with a reference as the flag (`for out := next(); out != nil; out = next()`): an arriving nil /
+				// freshly made value decides the test; a value known to leave is followed out
+				if flag, exitWhenNil, outBlk, ok := nilFlagLoopHead(blk); ok && len(st.frames) > 0 && st.top().fn == blk.Parent() {
+					if v := p.PhiOut[flag]; v != nil {
+						if c := mkBin("==", v, Nil); c.IsConst() && (c.Aux == "true" || c.Aux == "false") && (c.Aux == "true") == exitWhenNil {
+							f := st.top()
+							for phi, t := range p.PhiOut {
+								f.env[phi] = t
+							}
+							ex.run(st, outBlk, 0, blk, false)
+							return
+						}
+					}
+				}
 				if flag, exitOn, outBlk, ok := flagLoopHead(blk); ok && len(st.frames) > 0 && st.top().fn == blk.Parent() {
 					v := p.PhiOut[flag]
 					leave := func(ns *State) {
@@ -1362,7 +1402,7 @@ func (ex *explorer) run(st *State, blk *ssa.BasicBlock, idx int, prev *ssa.Basic
 		case *ssa.Return:
 			var res []*Term
 			for _, r := range in.Results {
-				res = append(res, ex.eval(st, r))
+				res = append(res, st.knownValue(ex.eval(st, r), r.Type()))
 			}
 			if len(st.frames) == 1 {
 				ex.emit(st, Step{Kind: KReturn, Instr: in, A: res})
@@ -1474,6 +1514,56 @@ func flagLoopHead(blk *ssa.BasicBlock) (*ssa.Phi, bool, *ssa.BasicBlock, bool) {
 	// flag value that leaves: cond' = flag XOR neg ; leaves when cond' == takenTrueLeaves
 	exitOn := takenTrueLeaves != neg
 	return phi, exitOn, out, true
+}
+
+// nilFlagLoopHead: the loop head consists of phis, one comparison of one of its own phis with nil, and the branch on
+// it; one successor inside the loop, one outside. Returns the phi, whether a nil value leaves the loop, and the
+// block outside.
+func nilFlagLoopHead(blk *ssa.BasicBlock) (*ssa.Phi, bool, *ssa.BasicBlock, bool) {
+	n := len(blk.Instrs)
+	if n < 3 || len(blk.Succs) != 2 {
+		return nil, false, nil, false
+	}
+	iff, ok := blk.Instrs[n-1].(*ssa.If)
+	if !ok {
+		return nil, false, nil, false
+	}
+	cmp, ok := iff.Cond.(*ssa.BinOp)
+	if !ok || cmp.Block() != blk || blk.Instrs[n-2] != ssa.Instruction(cmp) || (cmp.Op != token.EQL && cmp.Op != token.NEQ) {
+		return nil, false, nil, false
+	}
+	for _, in := range blk.Instrs[:n-2] {
+		if _, isP := in.(*ssa.Phi); !isP {
+			return nil, false, nil, false
+		}
+	}
+	isNil := func(v ssa.Value) bool {
+		k, isK := v.(*ssa.Const)
+		return isK && k.Value == nil
+	}
+	var phi *ssa.Phi
+	switch {
+	case isNil(cmp.Y):
+		phi, _ = cmp.X.(*ssa.Phi)
+	case isNil(cmp.X):
+		phi, _ = cmp.Y.(*ssa.Phi)
+	}
+	if phi == nil || phi.Block() != blk {
+		return nil, false, nil, false
+	}
+	lb := LoopBlocks(blk)
+	in0, in1 := lb[blk.Succs[0]], lb[blk.Succs[1]]
+	if in0 == in1 {
+		return nil, false, nil, false
+	}
+	takenTrueLeaves := !in0
+	out := blk.Succs[1]
+	if takenTrueLeaves {
+		out = blk.Succs[0]
+	}
+	// cond true <=> (phi == nil) when EQL; leaves when cond == takenTrueLeaves
+	exitWhenNil := takenTrueLeaves == (cmp.Op == token.EQL)
+	return phi, exitWhenNil, out, true
 }
 
 func predIndex(b, prev *ssa.BasicBlock) int {
@@ -1976,7 +2066,14 @@ func (ex *explorer) simple(st *State, in ssa.Instruction) {
 	case *ssa.MakeInterface:
 		x := ex.eval(st, in.X)
 		f.env[in] = x
-		if st.dyn != nil && !types.IsInterface(in.X.Type()) && !x.IsConst() {
+		zeroStruct := false
+		if x.IsConst() && strings.HasPrefix(x.Aux, "zero:") {
+			// the zero value of a named struct type (a stateless strategy object): its term names the type
+			if nt, ok := f.ty(in.X.Type()).(*types.Named); ok {
+				_, zeroStruct = nt.Underlying().(*types.Struct)
+			}
+		}
+		if st.dyn != nil && !types.IsInterface(in.X.Type()) && (!x.IsConst() || zeroStruct) {
 			if _, isTP := in.X.Type().(*types.TypeParam); !isTP {
 				st.dyn[x.Key()] = f.ty(in.X.Type())
 			}
@@ -2102,6 +2199,9 @@ func SpawnState(s *Step) (*ssa.Function, *State) {
 		bindings = s.Callee.Args
 	}
 	st := NewRootState(fn, s.A, bindings, s.Snap)
+	// the goroutine is analysed once for all the paths that start it: what one spawning path happened to know about
+	// the parameters (the path that skipped the worker loop knows par <= 0) must not prune the goroutine's own paths
+	st.facts = map[string]bool{}
 	return fn, st
 }
 
